@@ -445,6 +445,24 @@ func (m *c20) checkValue(class string, v val) {
 			ww := w()
 			ww["left"], ww["tail"] = rb.Len(), len(m.tail)
 			c.Violate("consumed-not-exactly-encoding|"+v.k.String(), ww)
+		case pass == 1 && (v.k == kBytes || v.k == kString) && len(v.raw) <= 1<<20:
+			// Bytes() documents "returning value is a copy, it's safe to modify it"
+			// and String() returns an immutable string: the buffer the value was
+			// decoded from is the caller's to overwrite afterwards (pooled read
+			// buffers are). `in` is a private copy here.
+			var held string
+			if v.k == kString {
+				held, _ = (&bin.Buffer{Buf: in}).String() // keep the string itself, not a copy of it
+			}
+			for i := range in {
+				in[i] ^= 0x5A
+			}
+			if !got.eq(v) || (v.k == kString && held != string(v.raw)) {
+				ww := w()
+				ww["decoded_now"] = got.witness()
+				c.Violate("history|earlier-decoded-value-changed|"+v.k.String(), ww)
+			}
+			c.Add("decoded_value_rechecked_after_input_overwrite", 1)
 		}
 	}
 	switch v.k {
